@@ -6,6 +6,7 @@ import (
 	"strings"
 
 	vs "github.com/peterstace/simplefeatures/verifsim"
+	"verifsim.local/sim/gen"
 )
 
 type applyFn func(kind, fieldClass string, in []byte)
@@ -313,6 +314,36 @@ func inject(fs *vs.Stream, rec, other []byte, fields []field, format int, comple
 	// --- token-level faults for text formats
 	if !binaryFmt {
 		injectTokens(fs, rec, format, complete, per, apply)
+		// grammar-generated documents (and one token mutation of each)
+		ng := per * 2
+		if complete {
+			ng = 1024
+		}
+		for i := 0; i < ng; i++ {
+			var doc string
+			switch format {
+			case fWKT:
+				doc = gen.GrammarWKT(fs, 2)
+			case fGeoJSON:
+				doc = gen.GrammarGeoJSON(fs, 2)
+			case fFeature:
+				doc = `{"type":"Feature","geometry":` + gen.GrammarGeoJSON(fs, 2) + `,"properties":null}`
+			default:
+				doc = `{"type":"FeatureCollection","features":[{"type":"Feature","geometry":` + gen.GrammarGeoJSON(fs, 1) + `,"properties":{}},{"type":"Feature","geometry":` + gen.GrammarGeoJSON(fs, 1) + `,"properties":null}]}`
+			}
+			apply("grammar-generated", "-", []byte(doc))
+			if i%4 == 0 {
+				toks := lexText([]byte(doc))
+				if len(toks) > 0 {
+					t := toks[fs.Intn(len(toks), "gt")]
+					reps := numberReplacements
+					if t.kind != "number" {
+						reps = []string{"", "[", "]", "(", ")", ",", "null", "EMPTY", "1"}
+					}
+					apply("grammar-generated+token", t.kind, []byte(doc[:t.off]+reps[fs.Intn(len(reps), "gr")]+doc[t.off+t.n:]))
+				}
+			}
+		}
 	}
 
 	// --- fault sequences (2-3 faults)
